@@ -117,13 +117,13 @@ Proof.
 Qed.
 
 (* the code as it stands: ESC [ superscript-two m *)
-Theorem ansi_total_refuted : exists s, ansi_parse cfg_as_coded s = Err 1.
+Theorem ansi_total_refuted : exists s, ansi_parse cfg_pinned s = Err 1.
 Proof. exists [27; 91; 178; 109]. vm_compute. reflexivity. Qed.
 
 (* ... and ESC [ 1 1 1 ... m with one digit more than int() converts *)
 Theorem ansi_total_digit_limit_refuted :
   (0 <? c18_int_max_str_digits) = true ->
-  ansi_parse cfg_as_coded
+  ansi_parse cfg_pinned
     (27 :: 91 :: repeat 49 (Z.to_nat (c18_int_max_str_digits + 1)) ++ [109]) = Err 1.
 Proof.
   intros H. first [ now vm_compute | (vm_compute in H; discriminate) ].
@@ -190,10 +190,10 @@ Proof.
 Qed.
 
 (* the code as it stands leaves the 8-bit CSI and the zero-width marker *)
-Theorem ansi_escape_safe_refuted : exists v, no_intro (ansi_escape cfg_as_coded v) = false.
+Theorem ansi_escape_safe_refuted : exists v, no_intro (ansi_escape cfg_pinned v) = false.
 Proof. exists [155]. reflexivity. Qed.
 
-Theorem ansi_escape_safe_refuted_zw : no_intro (ansi_escape cfg_as_coded [1]) = false.
+Theorem ansi_escape_safe_refuted_zw : no_intro (ansi_escape cfg_pinned [1]) = false.
 Proof. reflexivity. Qed.
 
 (* ---------------------------------------------------------------------- *)
@@ -230,11 +230,11 @@ Qed.
 (* the code as it stands: 'a%sb' % '\x9b31m' *)
 Theorem ansi_template_inert_refuted :
   exists pre v post st o1,
-    run cfg_as_coded pst0 pre = Ok (st, o1) /\ p_mode st = Ground /\
-    run cfg_as_coded pst0 (pre ++ ansi_escape cfg_as_coded v ++ post) <>
-    match run cfg_as_coded st post with
+    run cfg_pinned pst0 pre = Ok (st, o1) /\ p_mode st = Ground /\
+    run cfg_pinned pst0 (pre ++ ansi_escape cfg_pinned v ++ post) <>
+    match run cfg_pinned st post with
     | Err e => Err e
-    | Ok (st2, o2) => Ok (st2, o1 ++ as_text (p_style st) (ansi_escape cfg_as_coded v) ++ o2)
+    | Ok (st2, o2) => Ok (st2, o1 ++ as_text (p_style st) (ansi_escape cfg_pinned v) ++ o2)
     end.
 Proof.
   exists [97], [155; 51; 49; 109], [98], pst0, [mkfrag [] [97] []].
@@ -270,17 +270,56 @@ Qed.
 
 (* the code as it stands: the second of two adjacent regions is shown *)
 Theorem ansi_zero_width_adjacent_refuted :
-  exists s o, ansi_parse cfg_as_coded s = Ok o /\ fragment_list_to_text o = [1; 98; 2; 99].
+  exists s o, ansi_parse cfg_pinned s = Ok o /\ fragment_list_to_text o = [1; 98; 2; 99].
 Proof.
   exists [1; 97; 2; 1; 98; 2; 99]. eexists. split; [vm_compute; reflexivity|]. reflexivity.
 Qed.
 
 Example ansi_zero_width_adjacent_repaired_example :
-  exists o, ansi_parse cfg_repaired [1; 97; 2; 1; 98; 2; 99] = Ok o /\ fragment_list_to_text o = [99].
+  exists o, ansi_parse cfg_now [1; 97; 2; 1; 98; 2; 99] = Ok o /\ fragment_list_to_text o = [99].
 Proof. eexists. split; [vm_compute; reflexivity|]. reflexivity. Qed.
 
 (* hypotheses are satisfiable *)
 Example run_inert_example :
-  exists st o, run cfg_as_coded pst0 [27; 91; 51; 49; 109] = Ok (st, o) /\ p_mode st = Ground /\
+  exists st o, run cfg_pinned pst0 [27; 91; 51; 49; 109] = Ok (st, o) /\ p_mode st = Ground /\
                p_style st = [97; 110; 115; 105; 114; 101; 100].
 Proof. eexists. eexists. split; [vm_compute; reflexivity|]. split; reflexivity. Qed.
+
+(* ---------------------------------------------------------------------- *)
+(* The code that is in /repo now (cfg_now): the statements above without
+   their repair hypotheses. *)
+
+Theorem ansi_total_now s : exists o, ansi_parse cfg_now s = Ok o.
+Proof. exact (ansi_total_repaired cfg_now s eq_refl). Qed.
+
+Theorem ansi_escape_safe_now v :
+  ansi_escape cfg_now v = map neutralise v /\
+  length (ansi_escape cfg_now v) = length v /\
+  forallb (fun c => negb (is_ctl c)) (ansi_escape cfg_now v) = true /\
+  no_intro (ansi_escape cfg_now v) = true.
+Proof. exact (ansi_escape_safe_repaired_full cfg_now v eq_refl). Qed.
+
+Theorem ansi_template_inert_now st0 pre v post st o1 :
+  run cfg_now st0 pre = Ok (st, o1) -> p_mode st = Ground ->
+  run cfg_now st0 (pre ++ ansi_escape cfg_now v ++ post) =
+  match run cfg_now st post with
+  | Err e => Err e
+  | Ok (st2, o2) => Ok (st2, o1 ++ as_text (p_style st) (ansi_escape cfg_now v) ++ o2)
+  end.
+Proof. exact (ansi_template_inert_repaired cfg_now st0 pre v post st o1 eq_refl). Qed.
+
+Theorem ansi_zero_width_region_now st body :
+  p_mode st = Ground -> mem_Z STX body = false ->
+  run cfg_now st (SOH :: body ++ [STX]) = Ok (st, [mkfrag ZWE body []]).
+Proof. exact (ansi_zero_width_region_repaired cfg_now st body eq_refl). Qed.
+
+(* two adjacent regions: two zero-width fragments, nothing visible, state restored *)
+Theorem ansi_zero_width_adjacent_now st b1 b2 :
+  p_mode st = Ground -> mem_Z STX b1 = false -> mem_Z STX b2 = false ->
+  run cfg_now st ((SOH :: b1 ++ [STX]) ++ (SOH :: b2 ++ [STX])) =
+  Ok (st, [mkfrag ZWE b1 []; mkfrag ZWE b2 []]).
+Proof.
+  intros Hm H1 H2. rewrite run_app.
+  rewrite (ansi_zero_width_region_now st b1 Hm H1), (ansi_zero_width_region_now st b2 Hm H2).
+  reflexivity.
+Qed.
